@@ -195,6 +195,19 @@ def run_task(task):
     s2 = jstep(dict(s), jnp.asarray(ev[e].reshape(wshape)))
     return None, {k: np.asarray(v) for k, v in s2.items()}
 
+  # a bound (init, update) pair is reused for several runs (a sweep): one
+  # eager run on the state handed out by init() first, then init() again -
+  # the exploration below starts from that second state
+  try:
+    warm = init()
+    for e in names[:2]:
+      warm = update(warm, jnp.zeros(()), jnp.asarray(ev[e].reshape(wshape)))
+  except Exception as e:  # pylint: disable=broad-except
+    acc.violation("C16|%s|eager" % task["name"], "eager stepping raised "
+                  "%s: %s" % (type(e).__name__, str(e)[:200]),
+                  {"config": {k: task[k] for k in ("alg", "n", "delta", "lr",
+                                                   "sketch")}})
+    return acc.result()
   s0 = {k: np.asarray(v) for k, v in init().items()}
   tol = 1e-10
 
